@@ -231,6 +231,65 @@ def _c03_tags(toks, impl):
     return t
 
 
+def _c09_tags(toks, impl):
+    n = 0 if toks[8] == "-" else toks[8].count(",") + 1
+    K = int(toks[2])
+    lens = [len(x.split(":")[0]) for x in toks[8].split(",")] if toks[8] != "-" else []
+    level = "empty" if not lens else ("one-kmer-per-node" if all(l == K for l in lens) else "compressed/partial")
+    return ["K=" + toks[2], "stranded=" + toks[4], "join=" + toks[5], "reduce=" + toks[6], "censor=" + ("none" if toks[7] == "-" else "some"),
+            "input=" + level, "nodes=%s" % ("0" if n == 0 else "1-3" if n < 4 else "4-15" if n < 16 else "16+")]
+
+
+def _c18_tags(toks, impl):
+    if toks[1] == "all":
+        return ["req=all"]
+    calls = toks[5].split(",")
+    t = ["req=iter", "K=" + toks[2]]
+    if any(c != "n" and int(c[1:]) > 4 for c in calls):
+        t.append("long-skip")
+    if any(c != "n" and int(c[1:]) <= 4 for c in calls):
+        t.append("short-skip")
+    if "end" in impl:
+        t.append("reaches-end")
+    return t
+
+
+def _c18_shrink(toks):
+    out = []
+    if toks[1] == "iter":
+        calls = toks[5].split(",")
+        for i in range(len(calls)):
+            if len(calls) > 1:
+                out.append(toks[:5] + [",".join(calls[:i] + calls[i + 1:])])
+        seqs = toks[3].split(",")
+        idx = int(toks[4])
+        for i in range(len(seqs)):
+            if i != idx and len(seqs) > 1:
+                out.append(toks[:3] + [",".join(seqs[:i] + seqs[i + 1:]), str(idx - 1 if i < idx else idx)] + toks[5:])
+    return out
+
+
+def _c20_tags(toks, impl):
+    t = ["req=" + toks[1] + ("-" + toks[2] if toks[1] == "persist" else "")]
+    if toks[1] == "export":
+        n = 0 if toks[4] == "-" else toks[4].count(",") + 1
+        t.append("nodes=%s" % ("0" if n == 0 else "1" if n == 1 else "2+"))
+        t.append("rest=" + ("none" if toks[5] == "none" else "object"))
+        if "L\\t" in impl:
+            t.append("has-links")
+    return t
+
+
+def _c20_shrink(toks):
+    out = []
+    if toks[1] == "export" and toks[4] != "-":
+        ns = toks[4].split(",")
+        for i in range(len(ns)):
+            if len(ns) > 1:
+                out.append(toks[:4] + [",".join(ns[:i] + ns[i + 1:])] + toks[5:])
+    return out
+
+
 PROPS = {
     "C07": {
         "lean_modules": ["Dbg.Props.C07"],
@@ -451,5 +510,46 @@ PROPS = {
                 "symmetry and adjacency-set = (K+1)-mers-of-the-reads checked. Non-trivial = graph with >= 2 nodes, or a prune/pipe request.",
         "trusted_base": ["BoomHashMap::get is exact on distinct keys (node ends of a valid graph are distinct)", "scores are small integers, exactly representable as f32"],
         "assumptions": ["pruning slices sorted by key (what filter_kmers + sort deliver)"],
+    },
+    "C09": {
+        "lean_modules": ["Dbg.Props.C09"],
+        "theorems": [],
+        "partial": [],
+        "n_quick": 2500, "n_thorough": 150000,
+        "nontrivial": lambda toks, impl: impl not in ("panic", "-") and toks[8].count(",") >= 2, "tags": _c09_tags,
+        "rule": "requests `recompress K gstranded stranded join reduce censor nodes` on graphs obtained from the real pipeline at three compression "
+                "levels (one k-mer per node; two separately compressed halves combined with BaseGraph::combine; fully compressed), censor "
+                "sets none / the real tip finder's output / a random fifth of the nodes; stranded 1/3; join always|payload equality; reduce "
+                "sum|max|mix. The debug_assert!(is_compressed) inside compress_graph is live in the checked harness profile. "
+                "Non-trivial = at least three input nodes and a non-empty result.",
+        "trusted_base": ["BoomHashMap::get exact on distinct node ends; finish() = finish_serial() (C19)"],
+        "assumptions": ["input graphs are valid (reachable from read sets); graph and compression strandedness agree"],
+    },
+    "C18": {
+        "lean_modules": ["Dbg.Props.C18"],
+        "theorems": [],
+        "partial": [],
+        "n_quick": 4000, "n_thorough": 300000,
+        "nontrivial": lambda toks, impl: impl != "panic" and (toks[1] == "all" or toks[5].count(",") >= 1), "tags": _c18_tags,
+        "shrink": _c18_shrink,
+        "rule": "requests `iter K nodes idx calls`: a graph of 1-4 nodes (lengths K..K+13, a quarter exactly K), the iterator of the first, a middle "
+                "or the last node, 1-12 calls from next / nth(0..4) / nth(5..9) / nth(remaining-1, remaining, remaining+1, remaining+5); "
+                "`all K nodes`: `for node in &graph { for kmer in node }`. Non-trivial = at least two calls.",
+        "trusted_base": ["ExactSizeIterator::len() = size_hint().0"],
+        "assumptions": ["len() is observed on a fresh iterator only (the property asks for the count up front)"],
+    },
+    "C20": {
+        "lean_modules": ["Dbg.Props.C20"],
+        "theorems": [],
+        "partial": [],
+        "n_quick": 3000, "n_thorough": 200000,
+        "nontrivial": lambda toks, impl: impl != "panic" and (toks[1] != "export" or toks[4].count(",") >= 1), "tags": _c20_tags,
+        "shrink": _c20_shrink,
+        "rule": "requests `export K stranded nodes rest`: GFA and JSON text of graphs from the pipeline (60%), hand-made empty / single-node / "
+                "link-free graphs, with and without a `rest` object; the JSON is additionally parsed with serde_json and its node and "
+                "link counts compared with the graph; `persist kmer|dna|exts|lmer|graph …`: serde_json round trips with equality and query "
+                "comparison. Non-trivial = export of a graph with >= 2 nodes, or a persist request.",
+        "trusted_base": ["serde / serde_json derive code (round trips are tested, not proved)", "Debug of DnaStringSlice (C15) renders the node sequence"],
+        "assumptions": ["payload renderings are JSON values"],
     },
 }
